@@ -1,6 +1,8 @@
 from vlib import runner, sysprops
 
-PARTIAL = []
+PARTIAL = [
+    'server side: the stream ends only when drained (state-level); acceptance of the server C10 monitor on every model trace is not proved (validated by correspondence)',
+]
 
 
 def run(tier, seed, replay):
